@@ -73,7 +73,31 @@ func genAssert(t *rapid.T, c *Case) *AssertCase {
 		origin = []string{"valid"}
 	}
 	a.Origin = strings.Join(origin, "+")
+	// the storage's answer to the key lookup of the assertion under test: normal, a failure without a key
+	// (plain error / deadline / ready-made OAuth error, bare or wrapped) or a failure that still hands out key material
+	a.KeyFault = rapid.SampledFrom(keyFaults).Draw(t, "keyfault")
 	return a
+}
+
+// keyFaults are the vkit fault kinds applied to Storage.GetKeyByIDAndClientID ("" = the lookup works).
+var keyFaults = []string{"", "", "", "", "", "", "", "", "", "", "", "", "partial", "partial", "partial", "error", "deadline", "oidc", "oidc-wrapped"}
+
+func knownKeyFault(k string) bool {
+	for _, x := range keyFaults {
+		if x == k && k != "" {
+			return true
+		}
+	}
+	return false
+}
+
+// keyLookupFault installs the fault (for every request from now on); the returned func removes it.
+func keyLookupFault(st *vkit.Store, kind string) func() {
+	if !knownKeyFault(kind) {
+		return func() {}
+	}
+	st.SetFaults(vkit.Fault{Method: "GetKeyByIDAndClientID", Kind: kind})
+	return func() { st.SetFaults() }
 }
 
 func mutateAssert(t *rapid.T, c *Case, ac *AssertCase, x int) string {
@@ -749,6 +773,7 @@ func runAssert(c Case, res *vkit.Result) {
 		return
 	}
 	var o outcome
+	clearFault := keyLookupFault(st, ac.KeyFault)
 	switch ac.Use {
 	case "verify":
 		req, err := op.VerifyJWTAssertion(context.Background(), assertion, verifier)
@@ -781,17 +806,29 @@ func runAssert(c Case, res *vkit.Result) {
 		o = present(st, sut, ag, sc, T, ac.Use, assertion, bodyIDValue(c, ac))
 	}
 	t1 := time.Now()
+	clearFault()
 	if o.Panic != "" {
 		res.Fail("C14:panic@"+o.Panic, "panic while presenting the assertion (%s): %s", ac.Use, o.Info)
 		return
 	}
 
 	v := modelAssertion(c, ac.A, cfg)
-	judgeAssertion(c, res, ac.Use, ac.A, cfg, v, o, T, ac.BodyID, len(ac.Primers), t1.Sub(t0))
+	if knownKeyFault(ac.KeyFault) {
+		// the storage answered the key lookup with an error: whatever it handed out besides, it does not hold
+		// a key for the named client as far as this request is concerned
+		v.reject = append(v.reject, "key-lookup-failed")
+		sort.Strings(v.reject)
+		v.v = -1
+		res.Label("keyfault:" + ac.KeyFault)
+		if len(v.reject) == 1 {
+			res.Label("keyfault-only:" + ac.KeyFault) // every other condition holds (or sits in a time window)
+		}
+	}
+	judgeAssertion(c, res, ac.Use, ac.A, cfg, v, o, T, ac.BodyID, len(ac.Primers), t1.Sub(t0), ac.KeyFault)
 }
 
 // judgeAssertion applies the oracle; shared with nothing else but kept separate for readability.
-func judgeAssertion(c Case, res *vkit.Result, use string, a AssertSpec, cfg VerifierCfg, v verdict, o outcome, T *vkit.ClientSpec, bodyID string, primers int, elapsed time.Duration) {
+func judgeAssertion(c Case, res *vkit.Result, use string, a AssertSpec, cfg VerifierCfg, v verdict, o outcome, T *vkit.ClientSpec, bodyID string, primers int, elapsed time.Duration, keyFault string) {
 	iss := strOr(a.Iss)
 	// acceptance is only demanded where nothing but the statement's conditions stands in the way
 	soft := append([]string{}, v.soft...)
@@ -873,9 +910,9 @@ func judgeAssertion(c Case, res *vkit.Result, use string, a AssertSpec, cfg Veri
 		res.Label("kid-name-also-at-other-client")
 	}
 	res.NonTrivial = vv != 1 || len(soft) > 0 || same
-	res.Key = fmt.Sprintf("assert|%s|%s|v=%d|r=%v|w=%v|s=%v|rel=%s|kidsame=%v|alg=%s|sig=%s|exp=%d%s|iat=%d%s|cfg=%s/%d/%d/%s|body=%s|extra=%s|primed=%d|acc=%v",
+	res.Key = fmt.Sprintf("assert|%s|%s|v=%d|r=%v|w=%v|s=%v|rel=%s|kidsame=%v|alg=%s|sig=%s|exp=%d%s|iat=%d%s|cfg=%s/%d/%d/%s|body=%s|extra=%s|primed=%d|acc=%v|kf=%s",
 		use, c.Router, vv, v.reject, v.grey, soft, v.rel, same, a.Tok.Alg, a.Tok.Sig, a.Exp.Rel, a.Exp.Form, a.Iat.Rel, a.Iat.Form,
-		cfg.Issuer, cfg.MaxAgeS, cfg.OffsetS, cfg.SubjectCheck, bodyID, a.Extra, primers, o.Accepted)
+		cfg.Issuer, cfg.MaxAgeS, cfg.OffsetS, cfg.SubjectCheck, bodyID, a.Extra, primers, o.Accepted, keyFault)
 }
 
 func onlyTimeReasons(r []string) bool {
